@@ -49,7 +49,7 @@ def MD.discard (md : MD) (k v : String) : MD := sdel (k, v) md
 def MD.has (md : MD) (k v : String) : Bool := decide ((k, v) ∈ md)
 def MD.discardKey (md : MD) (k : String) : MD := md.filter (fun p => decide (p.1 ≠ k))
 def MD.iter (md : MD) (k : String) : List String := (md.filter (fun p => decide (p.1 = k))).map (·.2)
-def MD.keys (md : MD) : List String := (md.map (·.1)).eraseDups
+def MD.keys (md : MD) : List String := (md.map (·.1)).foldl (fun s k => sadd k s) []
 
 /-! ### payload types -/
 
